@@ -132,7 +132,13 @@ def run(harnesses, repo='/repo', jobs=8, timeout=3600, playback=True):
     if playback:
         for h, r in list(res['results'].items()):
             if r == 'FAILURE':
-                res['playback'][h] = concrete_playback(h, work, env)
+                pb = concrete_playback(h, work, env)
+                res['playback'][h] = pb
+                fc = pb.get('failed_checks') or []
+                # a harness whose only failing checks are its own unwinding bound / an unsupported construct decides nothing
+                if fc and all(re.search(r'unwinding assertion|not currently supported|unsupported|is not supported', c) for c in fc):
+                    res['results'][h] = 'UNDECIDED'
+                    res.update(status='undecided', reason='harness %s: %s' % (h, '; '.join(fc[:2])))
     return res
 
 
